@@ -50,6 +50,18 @@ CHECKS = {
  'C11': dict(technique='executable Coq model of the description language (byte-level lexer following yylex, recursive-descent parser for the conflict-free LALR grammar of sgramm.y, duplicate elimination and implicit codes with the start value regenerated from sgramm.y) + differential run: yaep_parse_grammar on the text vs yaep_read_grammar of the same binary on the grammar the model denotes',
              text='Theorem so far: C11_implicit_codes_start (facts re-extracted from set_sgrammar: first implicit code 256, counter not overwritten before use). The model itself is tied by correspondence on printed grammars in all lexical variations and on byte-level mutations: same return code as the callback-defined twin, same parse results on sampled inputs, code 3 with a line number inside the text for texts outside the syntax, code 7 for a terminal described with two codes. Partial: the round-trip theorem print/parse for the model is future work.',
              design='6 C11'),
+ 'C12': dict(technique='Coq theorem that the error message fits its buffer for any text (formatting primitive and bound regenerated from yaep_error) + sanitizer-instrumented dedicated stream',
+             text='Theorems: C12_message_fits, C12_source_uses_bounded_formatting (facts of the source), C12_unbounded_would_overflow (the refutation that applied to the pinned tree). Correspondence: arbitrary byte strings and mutated descriptions, 199-1000 character names at every message site, 63-300 terminals with sparse/dense codes, undeclared and huge token codes, arbitrary setting values, cyclic grammars with all parses - no sanitizer report, no timeout, only documented return codes, message length <= 200. Partial: memory safety of the C code is observed, not proved.',
+             design='6 C12'),
+ 'C13': dict(technique='verified acyclicity decider on the serialised DAG + event-log relations on the tracked allocator (ASan, LeakSanitizer)',
+             text='Theorem: C13_acyclic_paths_bounded. Correspondence on 1-3 parses per object with tracking parse_alloc/parse_free: every block freed during a parse was allocated by that parse and is freed once; every node and name of the result lies in a live block of that parse; trees walked after yaep_free_grammar; yaep_free_tree frees every block once, leaves no block of the parse, calls the terminal callback once per TERM node; default allocator under LeakSanitizer. Partial: the model of free_tree_reduce/sweep and its theorem are future work.',
+             design='6 C13'),
+ 'C17': dict(technique='enumeration of every failing allocation request of the fault-free run for a corpus of scenarios (library built with counting/failing wrappers around allocate.c, no source hook)',
+             text='Correspondence: for create / define (callbacks, text, redefinition) / parse (several configurations, long inputs, big grammar) scenarios and every request k: the call returns NULL resp. YAEP_NO_MEMORY with error code 1, no sanitizer report, the object can be freed, a second object parses as before. Theorem: C17_no_memory_code only; partial - the unwinding protocol model is future work.',
+             design='6 C17'),
+ 'C18': dict(technique='Coq lemmas about the hash table growth policy regenerated from hashtab.c/.cpp (geometric growth, room in an unexpanded table) + measurement of machine-independent counters on deterministic grammar families',
+             text='Theorems: C18_expansion_geometric(_cpp), C18_new_size_doubles, C18_unexpanded_table_has_room (re-proved against the current source expressions on every run). Measurement: bytes requested, hash searches, collisions and unique set cores for 1k..32k (thorough 512k) tokens of list / expression / statement grammars at lookahead 0,1,2 inside linear envelopes and doubling ratios calibrated on the pinned tree. Partial: the envelopes are empirical.',
+             design='6 C18'),
  'C14': dict(technique='Coq refinement theorem for the API object model (objects_independent: the results seen on one object are those of its own sub-history) + differential run of random multi-object histories against the extracted model and against fresh-object replays',
              text='Theorems: C14_objects_independent, C14_error_state over all histories (induction on the call list). Correspondence: every setter / definition / error-code / parse call of a random history over 1-3 live objects returns what the model prescribes; every successful parse equals the same parse on a fresh object in a fresh process; no sanitizer report, no leak after everything is freed (LeakSanitizer), no double free in the tracked tree memory.',
              design='6 C14'),
